@@ -29,6 +29,7 @@ def run(ck):
     ck.rule("C12.R2", "collector gone / lock poisoned => Err and the closure is not run", floor=1)
     ck.rule("C12.R3", "reload::Subscriber methods lock per call; no field caches the inner value", floor=20)
     ck.rule("C12.R4", "the rebuild covers every callsite and the max level", floor=2)
+    ck.rule("C12.R6", "the rebuild reaches every registered callsite: the lock-free list never loses a node (as C04.R3)", floor=5)
     ck.rule("C12.R5", "a first-hit registration is serialised with the rebuild (registry critical sections, as C04.R1)", floor=3)
     for cfg in configs:
         F = Facts(cfg)
@@ -42,6 +43,8 @@ def run(ck):
             # after the reload: both follow from `register` holding the dispatchers lock across interest + push
             from rules import C04
             C04.r1(ck, F, rid="C12.R5")
+            # ... and the rebuild only reaches callsites that are still on the registry list (C04.R3's push/walk rule)
+            C04.r3(ck, F, rid="C12.R6")
     ck.tag = ""
 
 
